@@ -888,3 +888,32 @@ package core
 //@   assume-entry breakerOK(b)
 //@ func (*OutboundBreaker).Summary
 //@   assume-entry breakerOK(b)
+
+// ---- C13: thin safety contracts ---------------------------------------------------------------
+//@ const-global Throttled
+//@ extern math/rand.Intn
+//@   ensures result >= 0 && result < n
+//@   pure-effects
+//@ extern strings.SplitN
+//@   ensures n != 0 ==> len(result) >= 1
+//@   pure-effects
+//@ func (*IndexedState).search
+//@   ensures[C13.ix_search_result_nonnil] result1 == nil ==> result0 != nil
+//@ func (*LinearState).search
+//@   ensures[C13.lin_search_result_nonnil] result1 == nil ==> result0 != nil
+//@ func (*IndexedState).Search
+//@   ensures[C13.ix_Search_result_nonnil] result1 == nil ==> result0 != nil
+//@ func (*LinearState).Search
+//@   ensures[C13.lin_Search_result_nonnil] result1 == nil ==> result0 != nil
+//@ iface State.Search
+//@   ghost-ensures result1 == nil ==> result0 != nil
+//@ func (*Location).searchFacts
+//@   ensures[C13.searchfacts_result_nonnil] result1 == nil ==> result0 != nil
+//@ func (*Location).searchFactsAncestors
+//@   ensures[C13.searchfactsancestors_result_nonnil] result0 != nil
+//@ func (*Location).SearchFacts
+//@   ensures[C13.SearchFacts_result_nonnil] result1 == nil ==> result0 != nil
+//@ func ExecQuery
+//@   ensures[C13.execquery_result_nonnil] result1 == nil ==> result0 != nil
+//@ func (*TermIndex).Search
+//@   loop 1: invariant[C13.ti_search_smallest_in_range] 0 <= smallest && smallest < len(terms)
